@@ -583,3 +583,69 @@ example : (runA {} [.hook true, .hook false]).tasks = [.waiting, .waiting] := by
 example : (runA {} [.hook true, .kill]).tasks = [.done] := by decide
 
 end MitmVerif.Props.C11
+
+-- ------------------------------------------------------------------------------------------------
+-- audit round 6 (added by the C01/C02 builder): the hypotheses of the theorems above instantiated on concrete,
+-- reachable states
+namespace MitmVerif.Props.C11
+open MitmVerif.C11
+
+/-- `held_never_sent` / `resume_forwards_once`: distinct ids, message 1 forwarded exactly once (edited), 2 pending and 3
+    queued at the end -/
+private def exHeld : List In := [.arrive ⟨1, 5⟩, .arrive ⟨2, 6⟩, .complete ⟨false, false, 9⟩, .arrive ⟨3, 7⟩]
+
+example : (arrivals exHeld).Nodup ∧ held (run .http {} exHeld).1 = [2, 3] ∧
+    (run .http {} exHeld).2 = [.hook 1, .send 1 9, .hook 2] ∧
+    ((run .http {} exHeld).2.filter (Out.isSendOf 1)).length = 1 ∧
+    ((run .http {} exHeld).2.filter (Out.isSendOf 2)).length = 0 := by decide
+
+/-- `resume_forwards_edited`: its three hypotheses hold in the state reached by one arrival, for a WebSocket message
+    that was neither killed-and-honoured nor dropped (and for an HTTP message with no remote close) -/
+example : (run .ws {} [.arrive ⟨1, 5⟩]).1.paused = some ⟨1, 5⟩ ∧
+    (Kind.ws.honoursKill && (true || (Kind.ws == .http && (run .ws {} [.arrive ⟨1, 5⟩]).1.remoteKill))) = false ∧
+    (run .ws {} [.arrive ⟨1, 5⟩]).1.gone = false ∧ (Kind.ws == .ws && false) = false ∧
+    afterHook .ws (run .ws {} [.arrive ⟨1, 5⟩]).1 ⟨1, 5⟩ ⟨true, false, 9⟩ = [.send 1 9] := by decide
+example : (Kind.http.honoursKill && (false || (Kind.http == .http && (run .http {} [.arrive ⟨1, 5⟩]).1.remoteKill))) = false ∧
+    (run .http {} [.arrive ⟨1, 5⟩]).1.gone = false ∧
+    afterHook .http (run .http {} [.arrive ⟨1, 5⟩]).1 ⟨1, 5⟩ ⟨false, false, 9⟩ = [.send 1 9] := by decide
+/-- …and each hypothesis is needed: dropped WebSocket message, UDP association gone -/
+example : afterHook .ws {} ⟨1, 5⟩ ⟨false, true, 5⟩ = [] ∧
+    (run .udp {} [.arrive ⟨1, 5⟩, .close false true, .complete ⟨false, false, 5⟩]).2 = [.hook 1] := by decide
+
+/-- `kill_forwards_nothing_and_errors_partial`: a reachable state (1 pending, 2 queued) satisfying WF / paused / Nodup -/
+example : Kind.dnsReq.honoursKill = true ∧
+    ((run .dnsReq {} [.arrive ⟨1, 5⟩, .arrive ⟨2, 6⟩]).1.paused = none → (run .dnsReq {} [.arrive ⟨1, 5⟩, .arrive ⟨2, 6⟩]).1.queue = []) ∧
+    (run .dnsReq {} [.arrive ⟨1, 5⟩, .arrive ⟨2, 6⟩]).1.paused = some ⟨1, 5⟩ ∧
+    (held (run .dnsReq {} [.arrive ⟨1, 5⟩, .arrive ⟨2, 6⟩]).1 ++ arrivals [.arrive ⟨3, 7⟩, .complete ⟨false, false, 6⟩]).Nodup := by decide
+
+/-- `kill_forwards_nothing_and_errors` (whole history): hypotheses and conclusion on a history with traffic before and
+    after the kill -/
+example : (run .http {} [.arrive ⟨1, 5⟩, .arrive ⟨2, 6⟩]).1.paused = some ⟨1, 5⟩ ∧
+    (arrivals ([.arrive ⟨1, 5⟩, .arrive ⟨2, 6⟩] ++ In.complete ⟨true, false, 5⟩ :: [.arrive ⟨3, 7⟩, .complete ⟨false, false, 6⟩])).Nodup ∧
+    (run .http {} ([.arrive ⟨1, 5⟩, .arrive ⟨2, 6⟩] ++ In.complete ⟨true, false, 5⟩ :: [.arrive ⟨3, 7⟩, .complete ⟨false, false, 6⟩])).2
+      = [.hook 1, .error 1, .hook 2, .send 2 6, .hook 3] := by decide
+
+/-- `remote_close_marks_held` / `remote_close_kills_held`: the state after arrival + remote close satisfies WF, paused,
+    remoteKill, and a plain resume then yields the error, not the message -/
+example : ((run .http {} [.arrive ⟨1, 5⟩]).1.paused = none → (run .http {} [.arrive ⟨1, 5⟩]).1.queue = []) ∧
+    (run .http {} [.arrive ⟨1, 5⟩, .close true false]).1.paused = some ⟨1, 5⟩ ∧
+    (run .http {} [.arrive ⟨1, 5⟩, .close true false]).1.remoteKill = true ∧
+    (run .http {} [.arrive ⟨1, 5⟩, .close true false, .complete ⟨false, false, 9⟩]).2 = [.hook 1, .error 1] := by decide
+
+/-- `sibling_exchange_while_held`: child 0 holds message 1, the idle child 4 does a whole exchange meanwhile -/
+example : ((runP .http {} [(0, .arrive ⟨1, 5⟩)]).1.get 0).paused = some ⟨1, 5⟩ ∧
+    (runP .http {} [(0, .arrive ⟨1, 5⟩)]).1.get 4 = {} ∧
+    (runP .http (runP .http {} [(0, .arrive ⟨1, 5⟩)]).1 [(4, .arrive ⟨4, 7⟩), (4, .complete ⟨false, false, 7⟩)]).2
+      = [.hook 4, .send 4 7] ∧
+    ((runP .http (runP .http {} [(0, .arrive ⟨1, 5⟩)]).1 [(4, .arrive ⟨4, 7⟩), (4, .complete ⟨false, false, 7⟩)]).1.get 0).paused
+      = some ⟨1, 5⟩ := by decide
+
+/-- `resume_or_kill_releases`: the `killable` hypothesis holds with two hooks waiting, and fails after a kill (a second
+    kill is a no-op); `intercepted_hook_waits` after a non-trivial prefix (a killed flow intercepted again) -/
+example : (runA {} [.hook true, .hook false]).f.killable = true ∧
+    (runA {} ([.hook true, .hook false] ++ [.kill])).tasks = [.done, .done] ∧
+    (runA {} [.hook true, .hook false, .kill]).f.killable = false ∧
+    (runA {} ([.hook true, .resume] ++ [.resume])).tasks = [.done] ∧
+    (runA {} ([.hook true, .kill] ++ [.hook true])).tasks = [.done, .waiting] := by decide
+
+end MitmVerif.Props.C11
